@@ -1,9 +1,33 @@
-HOOK_COMMITS = ["e8d87c5"]
+HOOK_COMMITS = ["e8d87c5", "afbd338"]
 NOTES = ("Every check re-checks the Coq theorems of coq/Props/<id>.v (full .vo build of their dependencies), rebuilds the "
          "harness from /repo's working tree with -tags verif, and runs the correspondence families of that property. "
          "See DESIGN.md for the trusted base and known_findings.json for recorded defects.")
 NOT_APPLICABLE = {}
 CLAIMED = {
+ "C01": {
+  "text": "Theorem next_refines_flow / run_refines_flow: for every dialogue, state, choice sequence and fuel, the runner "
+          "model's Next (continuation stack, choice re-applied and queues popped inside the recursion) returns exactly "
+          "the elements of the flat-continuation specification (Spec/FlowSpec.v: line, options -> body ++ rest, first "
+          "true clause, jump abandons everything, stop/end); next_choice_irrelevant: the argument is ignored unless an "
+          "option group is waiting. Correspondence: generated dialogues x valid choice paths x layouts x reader splits, "
+          "model vs the real DialogueRunner, plus an AST round trip through the implementation's parser.",
+  "design_ref": "DESIGN.md section 5, C01",
+  "note": "Axioms (via Flocq's real-number layer, used only by the number type): ClassicalDedekindReals.sig_not_dec, "
+          "sig_forall_dec, functional_extensionality_dep, Classical_Prop.classic. The OutOfFuel outcome is excluded by "
+          "hypothesis. Modelled, not verified: the ANTLR parser (the harness checks parse(print(ast)) = ast with the "
+          "implementation itself); markup parsing of line text is C13's.",
+  "technique": "Coq refinement proof (stack machine -> flat continuation semantics) + differential correspondence check",
+ },
+ "C12": {
+  "text": "Theorems end_absorbing / end_forever: whenever the model's Next reports the end (empty continuation or stop at "
+          "any depth), every later call with any argument and fuel reports the end again and returns the identical "
+          "state (variables, storer log, host log, visits, RNG, pending command). Correspondence: dialogues biased to "
+          "end early, then 3-6 further calls with junk arguments; outcomes, host log and storer log compared.",
+  "design_ref": "DESIGN.md section 5, C12",
+  "note": "Same axioms as C01 (Flocq's real-number layer). Restoring a snapshot is the only way out of the end state "
+          "(C07).",
+  "technique": "Coq invariant proof (end state is a fixed point of Next) + differential correspondence check",
+ },
  "C20": {
   "text": "Theorems for all operation sequences / all base token streams: the ring buffer refines a FIFO list "
           "(queue_refines_fifo), the slice stack a LIFO list, the NextToken protocol delivers exactly the list-level "
